@@ -81,7 +81,61 @@ def enumerate_cases(tier: str, seed: int) -> list[dict[str, Any]]:
                 elif ti >= len(tols) or (ti > 0 and not k.startswith("eps")):
                     continue
                 cases.append({"key": f"{pname}|{k}|tol{ti}", "prog": pname, "perturb": k, "tol": ti, "cost": 1.0})
+    for fault in ("inputs_the_model_rejects", "truncated_model_file", "missing_model_file", "wrong_input_count", "function_raises"):
+        for init in (False, True):
+            for dp in (False, True):
+                cases.append({"key": f"raising|{fault}|x64init={int(init)}|dp={int(dp)}", "src": "raising", "fault": fault, "init": init, "dp": dp, "cost": 1.0})
     return recs.only_filter(cases)
+
+
+def _raising_case(case: dict[str, Any]) -> dict[str, Any]:
+    """allclose leaves by exception (or reports a mismatch) - the process-wide x64 flag must be what it was."""
+    import jax
+    import jax.numpy as jnp
+    from jax2onnx import allclose, to_onnx
+
+    rec: dict[str, Any] = {"evals": 0, "nontrivial": [], "violations": [], "obs": {}}
+    dp, init, fault = case["dp"], case["init"], case["fault"]
+    dt = np.float64 if dp else np.float32
+    d = tempfile.mkdtemp(prefix="c18r_")
+    start = bool(jax.config.jax_enable_x64)
+    try:
+        fn = lambda x: jnp.tanh(x) * 2.0  # noqa: E731
+        path = os.path.join(d, "m.onnx")
+        to_onnx(fn, [jax.ShapeDtypeStruct((3, 4), dt)], enable_double_precision=dp, return_mode="file", output_path=path)
+        xs = [np.ones((3, 4), dt)]
+        call_fn = fn
+        if fault == "inputs_the_model_rejects":
+            xs = [np.ones((5, 4), dt)]
+        elif fault == "truncated_model_file":
+            raw = open(path, "rb").read()
+            open(path, "wb").write(raw[: len(raw) // 2])
+        elif fault == "missing_model_file":
+            path = os.path.join(d, "nope.onnx")
+        elif fault == "wrong_input_count":
+            xs = [np.ones((3, 4), dt), np.ones((3, 4), dt)]
+        elif fault == "function_raises":
+            def call_fn(x):
+                raise RuntimeError("reference function raises")
+        jax.config.update("jax_enable_x64", init)
+        outcome = "returned"
+        try:
+            ok, msg = allclose(call_fn, path, xs, rtol=1e-3, atol=1e-5, enable_double_precision=dp)
+            outcome = f"returned {bool(ok)}"
+        except BaseException as exc:  # noqa: BLE001
+            outcome = f"raised {type(exc).__name__}"
+            rec["obs"]["allclose_left_by_exception"] = 1
+        after = bool(jax.config.jax_enable_x64)
+        rec["evals"] = 1
+        rec["nontrivial"].append(case["key"] + "|" + outcome.split(" ")[0])
+        if after != init:
+            rec["violations"].append({"family": "allclose", "kind": "flag_changed", "cls": f"{fault}:x64init={int(init)},dp={int(dp)}", "text": f"{case['key']}: allclose {outcome} and left jax_enable_x64={after}, it was {init}"})
+        rec["sample"] = {"fault": fault, "x64_before": init, "enable_double_precision": dp, "outcome": outcome, "x64_after": after}
+    finally:
+        jax.config.update("jax_enable_x64", start)
+        shutil.rmtree(d, ignore_errors=True)
+    rec["status"] = "violated" if rec["violations"] else "held"
+    return rec
 
 
 def _const(name: str, arr: np.ndarray) -> onnx.NodeProto:
@@ -322,6 +376,8 @@ def run_case(case: dict[str, Any], tier: str, seed: int) -> dict[str, Any]:
     import jax
     from jax2onnx import allclose, to_onnx
 
+    if case.get("src") == "raising":
+        return _raising_case(case)
     spec = _programs()[case["prog"]]
     rtol, atol = TOLS[case["tol"]]
     rng = np.random.default_rng([seed, stable_hash(case["key"]) % 2**31])
